@@ -3,9 +3,9 @@ from . import supcommon as S
 
 OCAML = S.OCAML
 GO = S.GO
-FAMILIES = "startup,big,state,gatefail".split(",")
+FAMILIES = "startup,big,state,gatefail,gatecancel".split(",")
 PROP = "props/C03.v"
-PROOFS = ["proofs/SupInv.v", "proofs/SupTrig.v", "proofs/SupGate.v", "proofs/SupResult.v"]
+PROOFS = ["proofs/SupInv.v", "proofs/SupTrig.v", "proofs/SupGate.v", "proofs/SupResult.v", "proofs/SupPending.v"]
 
 
 def run(run):
